@@ -1,5 +1,6 @@
 import FastorModel.Proofs.SimdLanes
 import FastorModel.Generated.Simd_avx2
+import FastorModel.Generated.Simd_avx512
 import Mathlib.Tactic.IntervalCases
 import Mathlib.Tactic.SplitIfs
 /-!
@@ -26,6 +27,10 @@ theorem transpose8_ps (r0 r1 r2 r3 r4 r5 r6 r7 : Reg) (r c : Nat) (hr : r < 8) (
 theorem dyadic_float_2_2 (fo : FOps) (a b out : Reg) (i j : Nat) (hi : i < 2) (hj : j < 2) :
     avx2.h_dyadic_float_2_2 fo a b out (2 * i + j) = fo.mul32 (a i) (b j) := by
   interval_cases i <;> interval_cases j <;> simp [simd, avx2.h_dyadic_float_2_2]
+/-- the operands are read with 64-bit loads: only `a[0..1]`, `b[0..1]` matter -/
+theorem dyadic_float_2_2_reads (fo : FOps) (a a' b b' out : Reg) (ha : ∀ k, k < 2 → a' k = a k) (hb : ∀ k, k < 2 → b' k = b k) (w : Nat) (hw : w < 4) :
+    avx2.h_dyadic_float_2_2 fo a' b' out w = avx2.h_dyadic_float_2_2 fo a b out w := by
+  interval_cases w <;> simp [simd, avx2.h_dyadic_float_2_2, ha, hb]
 theorem dyadic_float_2_2_footprint (fo : FOps) (a b out : Reg) (w : Nat) (hw : 4 ≤ w) :
     avx2.h_dyadic_float_2_2 fo a b out w = out w := by
   simp [simd, avx2.h_dyadic_float_2_2]; first | omega | (split_ifs <;> first | rfl | omega)
@@ -45,25 +50,56 @@ theorem dyadic_double_4_4 (fo : FOps) (a b out : Reg) (i j : Nat) (hi : i < 4) (
     lane64 (avx2.h_dyadic_double_4_4 fo a b out) (4 * i + j) = fo.mul64 (lane64 a i) (lane64 b j) := by
   interval_cases i <;> interval_cases j <;> simp [simd, avx2.h_dyadic_double_4_4, lane64]
 
-/-- `_dyadic<float,3,3>`: the nine products ... -/
+/-- `_dyadic<float,3,3>` (after the repair of the one-element overrun, repo commit "fix: outer product of 2- and 3-element
+    vectors read and wrote past the end on AVX builds"): the nine products ... -/
 theorem dyadic_float_3_3 (fo : FOps) (a b out : Reg) (i j : Nat) (hi : i < 3) (hj : j < 3) :
     avx2.h_dyadic_float_3_3 fo a b out (3 * i + j) = fo.mul32 (a i) (b j) := by
-  interval_cases i <;> interval_cases j <;> simp [simd, avx2.h_dyadic_float_3_3]
-/-- ... and ONE WORD PAST the 9-element result: the last 4-lane store covers words 6..9, so `out[9] = a[2]*b[3]`
-    (`b[3]` is also one element past the 3-element operand).  Words from 10 on are untouched. -/
-theorem dyadic_float_3_3_overrun (fo : FOps) (a b out : Reg) :
-    avx2.h_dyadic_float_3_3 fo a b out 9 = fo.mul32 (a 2) (b 3) := by
-  simp [simd, avx2.h_dyadic_float_3_3]
-theorem dyadic_float_3_3_footprint (fo : FOps) (a b out : Reg) (w : Nat) (hw : 10 ≤ w) :
+  interval_cases i <;> interval_cases j <;> simp [simd, avx2.h_dyadic_float_3_3, avx2.mm_loadul3_ps, avx2.mm_storeul3_ps]
+/-- ... and NOTHING ELSE is written: the last row goes through the 3-lane masked store, so every word from 9 on keeps its value -/
+theorem dyadic_float_3_3_footprint (fo : FOps) (a b out : Reg) (w : Nat) (hw : 9 ≤ w) :
     avx2.h_dyadic_float_3_3 fo a b out w = out w := by
-  simp [simd, avx2.h_dyadic_float_3_3]; first | omega | (split_ifs <;> first | rfl | omega)
+  have h : w = 9 ∨ 10 ≤ w := by omega
+  rcases h with rfl | h
+  · simp [simd, avx2.h_dyadic_float_3_3, avx2.mm_loadul3_ps, avx2.mm_storeul3_ps]
+  · have h1 : 6 ≤ w := by omega
+    have h2 : ¬ (w - 6 < 4) := by omega
+    have h3 : ¬ (w < 7) := by omega
+    have h4 : ¬ (w < 4) := by omega
+    simp [simd, avx2.h_dyadic_float_3_3, avx2.mm_loadul3_ps, avx2.mm_storeul3_ps, h1, h2, h3, h4]
+/-- only the three elements of each operand are read: the result does not depend on `a[3]`, `b[3]`, ... -/
+theorem dyadic_float_3_3_reads (fo : FOps) (a a' b b' out : Reg) (ha : ∀ k, k < 3 → a' k = a k) (hb : ∀ k, k < 3 → b' k = b k) (w : Nat) (hw : w < 9) :
+    avx2.h_dyadic_float_3_3 fo a' b' out w = avx2.h_dyadic_float_3_3 fo a b out w := by
+  interval_cases w <;> simp [simd, avx2.h_dyadic_float_3_3, avx2.mm_loadul3_ps, avx2.mm_storeul3_ps, ha, hb]
+/-- the AVX-512 build of the same kernel (mask registers instead of mask vectors) -/
+theorem dyadic_float_3_3_avx512 (fo : FOps) (a b out : Reg) (i j : Nat) (hi : i < 3) (hj : j < 3) :
+    avx512.h_dyadic_float_3_3 fo a b out (3 * i + j) = fo.mul32 (a i) (b j) := by
+  interval_cases i <;> interval_cases j <;> simp [simd, avx512.h_dyadic_float_3_3, avx512.mm_loadul3_ps, avx512.mm_storeul3_ps]
+theorem dyadic_float_3_3_avx512_footprint (fo : FOps) (a b out : Reg) (w : Nat) (hw : 9 ≤ w) :
+    avx512.h_dyadic_float_3_3 fo a b out w = out w := by
+  have h : w = 9 ∨ 10 ≤ w := by omega
+  rcases h with rfl | h
+  · simp [simd, avx512.h_dyadic_float_3_3, avx512.mm_loadul3_ps, avx512.mm_storeul3_ps]
+  · have h1 : 6 ≤ w := by omega
+    have h2 : ¬ (w - 6 < 4) := by omega
+    have h3 : ¬ (w < 7) := by omega
+    have h4 : ¬ (w < 4) := by omega
+    simp [simd, avx512.h_dyadic_float_3_3, avx512.mm_loadul3_ps, avx512.mm_storeul3_ps, h1, h2, h3, h4]
 
 theorem dyadic_double_3_3 (fo : FOps) (a b out : Reg) (i j : Nat) (hi : i < 3) (hj : j < 3) :
     lane64 (avx2.h_dyadic_double_3_3 fo a b out) (3 * i + j) = fo.mul64 (lane64 a i) (lane64 b j) := by
-  interval_cases i <;> interval_cases j <;> simp [simd, avx2.h_dyadic_double_3_3, lane64]
-theorem dyadic_double_3_3_overrun (fo : FOps) (a b out : Reg) :
-    lane64 (avx2.h_dyadic_double_3_3 fo a b out) 9 = fo.mul64 (lane64 a 2) (lane64 b 3) := by
-  simp [simd, avx2.h_dyadic_double_3_3, lane64]
+  interval_cases i <;> interval_cases j <;> simp [simd, avx2.h_dyadic_double_3_3, avx2.mm256_loadul3_pd, avx2.mm256_storeul3_pd, lane64]
+/-- words 18.. (elements 9..) are untouched -/
+theorem dyadic_double_3_3_footprint (fo : FOps) (a b out : Reg) (w : Nat) (hw : 18 ≤ w) :
+    avx2.h_dyadic_double_3_3 fo a b out w = out w := by
+  have h : w = 18 ∨ w = 19 ∨ 20 ≤ w := by omega
+  rcases h with rfl | rfl | h
+  · simp [simd, avx2.h_dyadic_double_3_3, avx2.mm256_loadul3_pd, avx2.mm256_storeul3_pd]
+  · simp [simd, avx2.h_dyadic_double_3_3, avx2.mm256_loadul3_pd, avx2.mm256_storeul3_pd]
+  · have h1 : 12 ≤ w := by omega
+    have h2 : ¬ (w - 12 < 8) := by omega
+    have h3 : ¬ (w < 14) := by omega
+    have h4 : ¬ (w < 8) := by omega
+    simp [simd, avx2.h_dyadic_double_3_3, avx2.mm256_loadul3_pd, avx2.mm256_storeul3_pd, h1, h2, h3, h4]
 
 -- ------------------------------------------------------------------------------------------------ complex interleave <-> split
 
